@@ -334,7 +334,7 @@ def _boundary_histories():
 
 def _stage_c(ctx):
     rnd = random.Random(ctx.seed * 1000003 + 19)
-    n, nbig = (300, 14) if ctx.tier == "quick" else (3000, 80)
+    n, nbig = (300, 14) if ctx.tier == "quick" else (2000, 60)
     hists = _boundary_histories()
     hists += [_rand_history(rnd, 24 if rnd.random() < 0.7 else 64, ctx.tier == "thorough") for _ in range(n)]
     hists += [_big_history(rnd) for _ in range(nbig)]
